@@ -60,7 +60,7 @@ theorem cell_count_split (lf : Rec ℝ → Nat) (l c : Nat) (A B : DS ℝ) (q : 
       (((A.filter fun q => lf q == l).map (·.y)).filter (· == c)).length + (if lf q = l ∧ q.y = c then 1 else 0) +
         (((B.filter fun q => lf q == l).map (·.y)).filter (· == c)).length := by
   simp only [List.filter_append, List.filter_cons, List.map_append, List.length_append, beq_iff_eq]
-  by_cases h1 : lf q = l <;> by_cases h2 : q.y = c <;> simp [h1, h2] <;> omega
+  by_cases h1 : lf q = l <;> by_cases h2 : q.y = c <;> (simp [h1, h2]; try omega)
 
 /-- the increase of a leaf's utility vector is at most 1, and 0 unless the record joins this leaf in a new cell -/
 theorem leaf_incr_le (lf : Rec ℝ → Nat) (K l : Nat) (A B : DS ℝ) (r r' : Rec ℝ) :
@@ -186,18 +186,31 @@ theorem leaf_call_loss (t : Tree ℝ) (ti l : Nat) (A B : DS ℝ) (hrows : ∀ q
     unfold wtDispV
     rw [isVec_pfCall, if_pos rfl, hdec r, hdec r']
     exact hb.2
-  have h1 := lossLeW_one (relDispV p.n p.K) (wtDispV p.n p.K) (pre ++ r :: post) (pre ++ r' :: post) (pfCall p)
-    (fun D => packCounts p.n p.K (((rowsOf p ti D).filter fun q => lf q == l).map (·.y))) _ hε hrel hwt
-  refine lossLeW_mono _ _ _ _ _ (le_of_eq ?_) h1
-  show p.eps * _ = _
-  by_cases hs : sameCell p t r r'
-  · have hs1 : lf r = lf r' ∧ r.y = r'.y := hs
-    have hs2 : lf r' = lf r ∧ r'.y = r.y := ⟨hs.1.symm, hs.2.symm⟩
-    simp [w, hs, hs1, hs2]
-  · have hs1 : ¬ (lf r = lf r' ∧ r.y = r'.y) := hs
-    have hs2 : ¬ (lf r' = lf r ∧ r'.y = r.y) := fun h => hs ⟨h.1.symm, h.2.symm⟩
-    simp only [w, hs, hs1, hs2, if_false, not_false_eq_true, and_true, one_mul]
-    by_cases ha : lf r' = l <;> by_cases hb' : lf r = l <;> simp [ha, hb', eq_comm]
+  have e := mul_le_mul_of_nonneg_left hwt hε
+  have key : p.eps * (((if lf r' = l ∧ ¬ (lf r = lf r' ∧ r.y = r'.y) then 1 else 0 : ℕ) : ℝ) +
+        ((if lf r = l ∧ ¬ (lf r' = lf r ∧ r'.y = r.y) then 1 else 0 : ℕ) : ℝ)) =
+      (if l = lf r' then w else 0) + (if l = lf r then w else 0) := by
+    by_cases hs : sameCell p t r r'
+    · have hs1 : lf r = lf r' ∧ r.y = r'.y := hs
+      have hs2 : lf r' = lf r ∧ r'.y = r.y := ⟨hs.1.symm, hs.2.symm⟩
+      have hw : w = 0 := by simp [w, hs]
+      rw [if_neg (fun h => h.2 hs1), if_neg (fun h => h.2 hs2), hw]
+      simp
+    · have hs1 : ¬ (lf r = lf r' ∧ r.y = r'.y) := hs
+      have hs2 : ¬ (lf r' = lf r ∧ r'.y = r.y) := fun h => hs ⟨h.1.symm, h.2.symm⟩
+      have hw : w = p.eps := by simp [w, hs]
+      have e1 : (lf r' = l ∧ ¬ (lf r = lf r' ∧ r.y = r'.y)) ↔ l = lf r' := ⟨fun h => h.1.symm, fun h => ⟨h.symm, hs1⟩⟩
+      have e2 : (lf r = l ∧ ¬ (lf r' = lf r ∧ r'.y = r.y)) ↔ l = lf r := ⟨fun h => h.1.symm, fun h => ⟨h.symm, hs2⟩⟩
+      rw [hw]
+      simp only [e1, e2]
+      by_cases ha : l = lf r' <;> by_cases hb' : l = lf r
+      · rw [if_pos ha, if_pos hb', if_pos ha, if_pos hb']; push_cast; ring
+      · rw [if_pos ha, if_neg hb', if_pos ha, if_neg hb']; push_cast; ring
+      · rw [if_neg ha, if_pos hb', if_neg ha, if_pos hb']; push_cast; ring
+      · rw [if_neg ha, if_neg hb', if_neg ha, if_neg hb']; push_cast; ring
+  refine ⟨hrel, fun o => ?_⟩
+  show (0 : ℝ) ≤ _ - p.eps * _
+  linarith
 
 /-- one tree: 0 for the trees that do not hold the replaced row; for the one that does, at most 2ε, and 0 when the
 record keeps its (leaf, class) cell -/
@@ -267,7 +280,6 @@ theorem forest_privloss :
   refine lossLeW_mono _ _ _ _ _ ?_ (forest_privloss_gen p hε pre post r r' hn)
   refine le_trans (sum_map_le_gen _ _ (fun ti => if p.treeOf.getD pre.length 0 = ti.2 then 2 * p.eps else 0)
     fun ti _ => ?_) (zipIdx_single_sum_le _ _ _ (by positivity))
-  beta_reduce
   split
   · split <;> nlinarith
   · exact le_refl _
